@@ -12,7 +12,16 @@ import json
 import os
 
 REF_PATH = os.path.join(os.path.dirname(os.path.abspath(__file__)), 'refnames.json')
+SHAPE_PATH = os.path.join(os.path.dirname(os.path.abspath(__file__)), 'refshapes.json')
 _REF = None
+_SHAPES = None
+
+
+def shapes():
+    global _SHAPES
+    if _SHAPES is None:
+        _SHAPES = json.load(open(SHAPE_PATH)) if os.path.exists(SHAPE_PATH) else {}
+    return _SHAPES
 
 
 def ref():
@@ -207,6 +216,96 @@ def inline_new_temps(f, ref_names):
     return n_inlined
 
 
+_SWAP = {ast.Eq: ast.Eq, ast.NotEq: ast.NotEq, ast.Lt: ast.Gt, ast.Gt: ast.Lt, ast.LtE: ast.GtE, ast.GtE: ast.LtE}
+
+
+def _negated(t):
+    if isinstance(t, ast.UnaryOp) and isinstance(t.op, ast.Not):
+        return t.operand
+    return ast.UnaryOp(op=ast.Not(), operand=t)
+
+
+def plain_if_else(st):
+    # (an `else:` holding a single `if` counts too: turning `if c: <if x: ...> else: B` round makes exactly that shape)
+    return isinstance(st, ast.If) and bool(st.orelse)
+
+
+def _if_key(test, body):
+    """an if/else is identified by its test and the first line of what it guards"""
+    return '%s => %s' % (ast.unparse(test), ast.unparse(body[0]).split('\n')[0][:80])
+
+
+def shape_of(f):
+    """the orientation facts of a function: the texts (with multiplicity) of its two-operand comparisons and of the
+    tests of its if/else statements"""
+    cmps = sorted(ast.unparse(x) for x in ast.walk(f) if isinstance(x, ast.Compare) and len(x.ops) == 1 and type(x.ops[0]) in _SWAP)
+    ifs = sorted(_if_key(x.test, x.body) for x in ast.walk(f) if plain_if_else(x))
+    return {'cmp': cmps, 'if': ifs}
+
+
+def orient_back(f, want):
+    """Undo two logic-preserving re-orientations: `b == a` for the reference's `a == b` (likewise != < <= > >=), and
+    `if not c: B else: A` for the reference's `if c: A else: B`.  Only when the function has more occurrences of the
+    current form than the reference function and fewer of the mirrored form; operands of a swapped comparison must be
+    free of calls (so the order of evaluation is not at stake).  Returns the number of constructs turned back."""
+    if not want or os.environ.get('VERIF_NO_ORIENT'):
+        return 0
+    from collections import Counter
+    n = 0
+    refc, refi = Counter(want.get('cmp', [])), Counter(want.get('if', []))
+    cur = Counter(ast.unparse(x) for x in ast.walk(f) if isinstance(x, ast.Compare) and len(x.ops) == 1 and type(x.ops[0]) in _SWAP)
+    for x in ast.walk(f):
+        if isinstance(x, ast.Compare) and len(x.ops) == 1 and type(x.ops[0]) in _SWAP:
+            t = ast.unparse(x)
+            if cur[t] <= refc[t]:
+                continue
+            if any(isinstance(y, (ast.Call, ast.Await, ast.NamedExpr)) for side in (x.left, x.comparators[0]) for y in ast.walk(side)):
+                continue
+            m = ast.Compare(left=x.comparators[0], ops=[_SWAP[type(x.ops[0])]()], comparators=[x.left])
+            tm = ast.unparse(m)
+            if cur[tm] < refc[tm]:
+                x.left, x.ops, x.comparators = m.left, m.ops, m.comparators
+                cur[t] -= 1
+                cur[tm] += 1
+                n += 1
+    cur = Counter(_if_key(x.test, x.body) for x in ast.walk(f) if plain_if_else(x))
+    for x in ast.walk(f):
+        if plain_if_else(x):
+            t = _if_key(x.test, x.body)
+            if cur[t] <= refi[t]:
+                continue
+            neg = _negated(x.test)
+            tn = _if_key(neg, x.orelse)
+            if cur[tn] < refi[tn]:
+                x.test = neg
+                x.body, x.orelse = x.orelse, x.body
+                cur[t] -= 1
+                cur[tn] += 1
+                n += 1
+    if n:
+        ast.fix_missing_locations(f)
+    return n
+
+
+def _reposition(f):
+    """after blocks changed places: hand the source positions out again in traversal order, so that "earlier in the
+    source" keeps meaning "earlier in the function" for rules that order constructs by position (reports then point a
+    few lines off inside the function that was turned back, never outside it)"""
+    nodes = [n for n in _ordered(f) if hasattr(n, 'lineno') and n is not f]
+    pos = sorted((n.lineno, n.col_offset) for n in nodes)
+    for n, (l, c) in zip(nodes, pos):
+        n.lineno, n.col_offset = l, c
+
+    def end(n):
+        e = getattr(n, 'lineno', 0)
+        for ch in ast.iter_child_nodes(n):
+            e = max(e, end(ch))
+        if hasattr(n, 'end_lineno') and n is not f:
+            n.end_lineno = e
+        return e
+    end(f)
+
+
 def canonicalise(module_name, tree):
     """rename locals back to the reference names where only names changed, then substitute back temporaries that the
     reference tree does not have; returns list of notes"""
@@ -217,12 +316,23 @@ def canonicalise(module_name, tree):
         want = r.get(qual)
         if want is None:
             continue
+        # (turning an if/else round changes the order in which locals are first bound: undo that before names are compared)
+        k0 = 0
+        for _ in range(8):      # (an outer if/else is recognised by what it guards: inner ones first, then again)
+            kk = orient_back(f, shapes().get(module_name, {}).get(qual))
+            k0 += kk
+            if not kk:
+                break
         renamed = _rename_back(f, want, mg)
         if renamed:
             notes.append('%s.%s: %d local(s) mapped back to reference names' % (module_name, qual, renamed))
         k = inline_new_temps(f, {nm for nm, _ in want})
         if k:
             notes.append('%s.%s: %d new single-use temporar%s inlined' % (module_name, qual, k, 'y' if k == 1 else 'ies'))
+        k = k0 + orient_back(f, shapes().get(module_name, {}).get(qual))
+        if k:
+            _reposition(f)
+            notes.append('%s.%s: %d comparison(s) / if-else(s) turned back to the reference orientation' % (module_name, qual, k))
     return notes
 
 
